@@ -112,6 +112,7 @@ def draw_config(rng, wl, tier):
         cfg["dur_scale"] = T * rng.choice([0.005, 0.005, 0.2, 2.0]) if swarm > 0.34 else 0.005 * T
         if swarm > 0.34 and rng.random() < 0.3:
             cfg["faults"].append("F3")
+    cfg["in_child"] = rng.random() < 0.06
     return cfg
 
 
@@ -230,6 +231,11 @@ def prepare(wl, ctx, stats):
     import pyimpspec
 
     viols = []
+
+    def add(detail):
+        viols.append({"clause": "mock-data", "key": {"clause": "mock-data", "entry": "generate_mock_data"}, "detail": detail,
+                      "expected": None, "observed": None, "config": {"mock": "see detail"}})
+
     seed = int(wl["data"].get("noise_seed", 1)) % 100000
     # every fourth job uses one of the seeds people actually type
     if seed % 4 == 0:
@@ -248,10 +254,26 @@ def prepare(wl, ctx, stats):
         return viols
     stats["probes"]["mock_data_checks"] += 1
 
-    def add(detail):
-        viols.append({"clause": "mock-data", "key": {"clause": "mock-data", "entry": "generate_mock_data"}, "detail": detail,
-                      "expected": None, "observed": None, "config": {"mock": [ident, seed]}})
-
+    # wildcard identifiers return several spectra: every member must obey the seed
+    try:
+        wild = random.Random(seed + 7).choice(["CIRCUIT_1*", "CIRCUIT_7*", "*INVALID", "CIRCUIT_1*"])
+        w1 = pyimpspec.generate_mock_data(wild, noise=0.5, seed=seed)
+        np.random.rand(5)
+        w2 = pyimpspec.generate_mock_data(wild, noise=0.5, seed=seed)
+        w3 = pyimpspec.generate_mock_data(wild, noise=0.5, seed=seed + 1)
+        stats["probes"]["mock_data_batch_members"] += len(w1)
+        if len(w1) != len(w2):
+            add(f"generate_mock_data({wild!r}, seed={seed}) returned {len(w1)} then {len(w2)} spectra")
+        for i, (x, y) in enumerate(zip(w1, w2)):
+            if not np.array_equal(x.get_impedances(), y.get_impedances()):
+                add(f"generate_mock_data({wild!r}, noise=0.5, seed={seed}): spectrum #{i} ({x.get_label()}) is not bit-identical when the call is repeated")
+                break
+        for i, (x, y) in enumerate(zip(w1, w3)):
+            if np.array_equal(x.get_impedances(), y.get_impedances()):
+                add(f"generate_mock_data({wild!r}): spectrum #{i} has identical noise for seeds {seed} and {seed + 1}")
+                break
+    except Exception as e:
+        stats["skipped"]["mock_data_batch_" + type(e).__name__] += 1
     if not (np.array_equal(a.get_impedances(), b.get_impedances()) and np.array_equal(a.get_frequencies(), b.get_frequencies())):
         add(f"generate_mock_data({ident!r}, noise=0.5, seed={seed}) is not bit-identical when repeated under another global RNG state")
     if np.array_equal(a.get_impedances(), c.get_impedances()):
